@@ -9,7 +9,7 @@ def mc_cfg(name, devs):
 
 
 def transition_check(sc, tier, seed, prop, models, quick_n, rule, thorough_n=None, level='model_checking',
-                     assumptions=(), port=21000, walks=(), walk_n=(300, 3000), walk_depth=8, steer=()):
+                     assumptions=(), port=21000, walks=(), walk_n=(300, 3000), walk_depth=8, steer=(), extra_stage=None):
     """TLC enumerates every (state x command) transition of the bounded family models, checks the
     property invariants on the ideal reading, and every transition (a seeded, shape-stratified sample
     in the quick tier) is replayed on the real server over TCP with a full-state comparison."""
@@ -70,6 +70,8 @@ def transition_check(sc, tier, seed, prop, models, quick_n, rule, thorough_n=Non
         sres, sdt = run_replay(exe, sc, scs, port=port, tag='steer')
         v.absorb_replay(scs, sres, engine='dict_steering')
         v.cov['engines']['dict_steering'].update(sinfo)
+    if extra_stage:
+        extra_stage(v, sc, exe, tier, seed)
     v.assumptions = list(assumptions) + [
         'trusted observers/constructors: SET RPUSH HSET SADD PEXPIREAT SELECT FLUSHALL / KEYS TYPE GET LRANGE LLEN LINDEX HGETALL SMEMBERS PEXPIRETIME (each is itself a target of transition cases; a loader whose result does not project to the pre-state is reported, not skipped)',
         'error replies compared by error code only; unordered collections as multisets; random replies by membership/size/distinctness',
@@ -178,9 +180,50 @@ def c07(sc, tier, seed):
                                          'TTL/PTTL replies are accepted in the window [expected - elapsed - 1.5 s, expected]'])
 
 
+def txn_hammer_stage(v, sc, exe, tier, seed):
+    """C09 'EXEC is one unit no other client can interleave with': the transaction hammers of MC_conc (two
+    connections running MULTI ... EXEC blocks into each other, against MGET / CLIENT INFO observers) run
+    concurrently on the real server; each recorded history is validated by TLC (Trace_Lin)."""
+    out, st = run_tlc(sc, 'MC_conc', mc_cfg('MC_conc', []), workers=1, timeout=600, tag='conc-hammers',
+                      extra=['-simulate', 'num=1', '-depth', '5', '-seed', str(seed)])
+    if st['rc'] != 0:
+        raise Inconclusive('TLC failed on MC_conc:\n' + '\n'.join(st['tail'][-20:]))
+    cases = []
+    for op in tlc_json_lines(out):
+        if 'hammer' in op:
+            for rnd in range(3 if tier == 'quick' else 20):
+                for spec in op['hammer']:
+                    if not spec['name'].startswith('multi-exec'):
+                        continue
+                    progs = spec['progs']
+                    if isinstance(progs, list):
+                        progs = {str(i + 1): p for i, p in enumerate(progs)}
+                    cases.append({'id': len(cases), 'pre': op['pre'], 'progs': progs, 'mode': 'pipe', 'chunk': spec.get('chunk', 0), 'name': spec['name']})
+            break
+    if not cases:
+        raise Inconclusive('MC_conc printed no transaction hammer')
+    hists = run_conc(exe, sc, cases)
+    ok = [h for h in hists if h['status'] == 'ok']
+    for h in hists:
+        if h['status'] in ('crash', 'noreply'):
+            v.record_violation(cases[h['id']], {'fail': {'status': h['status'], 'detail': h.get('detail', ''), 'cmd': 'concurrent transactions (%s)' % cases[h['id']]['name']}, 'stderr': h.get('stderr', '')}, engine='conc')
+        elif h['status'] != 'ok':
+            v.inconclusive.append('conc case %s: %s' % (h['id'], h.get('detail')))
+    accepted, rejected, stats = validate_histories(sc, ok, open_devs())
+    for bad, ev in rejected:
+        v.record_violation({'history': bad, 'programs': cases[bad['id']]['progs'], 'mode': bad.get('mode')},
+                           {'fail': {'status': 'viol', 'cmd': 'history %d (%s)' % (bad['id'], cases[bad['id']]['name']),
+                                     'detail': 'no linearization with EXEC as one atomic step: the search never got past event %d of %d' % (ev, len(bad['ev']))}},
+                           engine='trace_lin')
+    v.cov['traces_validated_against_impl'] += len(accepted) + len(rejected)
+    v.cov['engines']['conc_transactions'] = {'histories': len(hists), 'accepted': len(accepted), 'rejected': len(rejected),
+                                             'with_overlapping_operations': sum(1 for h in ok if h.get('overlaps', 0) > 0)}
+    v.cov['tlc_runs'].extend({'model': 'Trace_Lin (validation of transaction hammers)', **s_} for s_ in stats)
+
+
 def c09(sc, tier, seed):
-    return transition_check(sc, tier, seed, 'C09', ['MC_txn'], 12000,
-                            'TLC enumerates the tree of ALL programs of length 4 (so every shorter program as a prefix) of one connection over {MULTI, EXEC, DISCARD, WATCH, UNWATCH, 2 good commands, 2 commands failing at run time, unknown command, bad arity, a read} interleaved at every position with at most one command of a second connection (write / read / pop) - 41472 programs - checks QueuedInvisible, ResetAfterExec, ExecAllOrNothing, SessionIsolation and WatchIff on the ideal reading, and each program is replayed deterministically on two real connections: every reply, the full database state after every step, and at the end each connection\'s MULTI state / selected db / protocol / name are compared.')
+    return transition_check(sc, tier, seed, 'C09', ['MC_txn', 'MC_txn2'], 12000, extra_stage=txn_hammer_stage, rule=
+                            'TLC enumerates the tree of ALL programs of length 4 (so every shorter program as a prefix) of one connection over {MULTI, EXEC, DISCARD, WATCH, UNWATCH, 2 good commands, 2 commands failing at run time, unknown command, bad arity, a read} interleaved at every position with at most one command of a second connection (write / read / pop) - 41472 programs - checks QueuedInvisible, ResetAfterExec, ExecAllOrNothing, SessionIsolation and WatchIff on the ideal reading, and each program is replayed deterministically on two real connections: every reply, the full database state after every step, and at the end each connection\'s MULTI state / selected db / protocol / name are compared. MC_txn2: MULTI, two queued commands out of the five blocking commands (on a list with elements / a missing list) + a push + LLEN, EXEC, a read. Finally the transaction hammers of MC_conc (two connections running MULTI ... EXEC blocks of 2-4 commands into each other, against MGET / CLIENT INFO observers) run concurrently and each history is validated by TLC (Trace_Lin) with EXEC as one atomic step.')
 
 
 def c10(sc, tier, seed):
